@@ -1,2 +1,98 @@
-(* C09 — stub: no theorems yet *)
-From Zap Require Import Base.Wire C09.Model C09.Proofs.
+(* C09 — The documented concurrent API is free of data races, deadlocks and panics.
+   Only statements closed by [exact]; the proofs are in C09/{Race,Deadlock,Inst,Proofs}.v.
+
+   Model (C09/Sem.v): a program is any number of threads; each thread runs any sequence
+   of method summaries (Gen/AccessFacts.v, regenerated from the repository on every run)
+   on any object instances; [run prog sched] is the interleaving semantics (mutexes and
+   RW-mutexes, sync.Once, spawn, atomics, channel close/receive) along the schedule
+   [sched : list tid].  A data race on location x is a reachable state in which two
+   different threads are both about to access x, at least one access a plain write (or
+   one plain and one atomic). *)
+From Coq Require Import List Bool.
+Import ListNotations.
+From Zap Require Import Base.Wire C09.Sem C09.Deadlock C09.Facts C09.Orig C09.Model C09.Proofs Gen.AccessFacts.
+
+(* soundness of the decidable discipline, for ANY table of summaries: if every field is
+   (a) never written, or (e) only accessed atomically, or (b) accessed only under one
+   lock (writes under the exclusive lock), or (c) written only inside one once body and
+   read only inside it or after that once completed in the same thread — then no program
+   built from the table, on any instances, under any schedule, reaches a race state on a
+   non-exempt field *)
+Theorem C09_discipline_sound : forall Us ex, discipline_ok Us ex = true ->
+  forall prog, from_facts Us prog -> forall sched i f, memb f ex = false ->
+  ~ race_state (i, f) (run eqb2 prog sched).
+Proof. exact discipline_sound_thm. Qed.
+Print Assumptions C09_discipline_sound.
+
+(* the summaries extracted from the repository's working tree satisfy the discipline
+   (exempt = the three BufferedWriteSyncer fields of the locked-initialisation pattern,
+   class (d), which are covered by the -race runs only) *)
+Theorem C09_facts : discipline_ok U exempt = true.
+Proof. exact facts_thm. Qed.
+Print Assumptions C09_facts.
+
+(* hence: every concurrent mix of the summarised methods is race-free in the model *)
+Theorem C09_race_free : forall prog, from_facts U prog -> forall sched i f, memb f exempt = false ->
+  ~ race_state (i, f) (run eqb2 prog sched).
+Proof. exact (discipline_sound_thm U exempt facts_thm). Qed.
+Print Assumptions C09_race_free.
+
+(* no lock/once deadlock, for ANY table: if nested acquisitions strictly descend in rank
+   (acyclic waits-for relation) and no summary waits on a channel while holding a lock or
+   running a once body (the shape of #1428), then in every reachable state a thread
+   blocked on a lock or a once implies that some thread can step, and a thread waiting
+   on a channel holds nothing *)
+Theorem C09_no_deadlock : forall Us rkf, deadlock_ok Us rkf = true ->
+  forall prog, from_facts Us prog -> forall sched,
+    let s := run eqb2 prog sched in
+    (forall t, blocked_lo s t -> exists t', can_step s t' = true) /\
+    (forall t c, waits_chan s t c -> forall r, ~ holdsP s t r).
+Proof. exact no_deadlock_thm. Qed.
+Print Assumptions C09_no_deadlock.
+
+Theorem C09_facts_deadlock : deadlock_ok U rk = true.
+Proof. exact facts_deadlock_thm. Qed.
+Print Assumptions C09_facts_deadlock.
+
+(* the summary of lazyWithCore BEFORE the fix violates the discipline, and the violation
+   is a real race of the model: two goroutines logging through one fresh WithLazy
+   logger, schedule [0;0;0] — thread 0 is about to write Core inside once.Do while
+   thread 1 is about to read it in the promoted Enabled *)
+Theorem C09_facts_refuted :
+  discipline_ok U_orig [] = false /\ field_ok U_orig 0 = false /\
+  from_facts U_orig prog_orig /\ race_state (0, 0) (run eqb2 prog_orig sched_orig).
+Proof. exact facts_orig_refuted. Qed.
+Print Assumptions C09_facts_refuted.
+
+(* the oracle run by the driver is the proved property: on every well-formed case the
+   model reports no race, no lock deadlock, no panic *)
+Theorem C09_wire : forall i, wf i = true -> spec i (model i) = true.
+Proof. exact wire_thm. Qed.
+Print Assumptions C09_wire.
+
+(* non-vacuity *)
+Example C09_table_nonempty : 50 <= List.length units.
+Proof. exact units_nonempty. Qed.
+
+(* a program of the theorem's shape: 3 threads over the first three summaries, instance 7 *)
+Example C09_program_exists : from_facts U [thread_of [(7, nth 0 U CNil); (7, nth 1 U CNil)]; thread_of [(7, nth 2 U CNil)]; thread_of []].
+Proof.
+  intros k [<-|[<-|[<-|[]]]]; eexists; (split; [|reflexivity]); intros c Hc; cbn in Hc;
+    repeat (destruct Hc as [<-|Hc]; [vm_compute; auto 10|]); destruct Hc.
+Qed.
+
+(* the checkers can say no: a field written under the lock but read without it; the
+   shape of #1428 (waiting for the flush loop while holding the mutex it needs) *)
+Example C09_unlocked_read_rejected :
+  discipline_ok [CCrit 1 true (CAcc 0 true CNil) CNil; CAcc 0 false CNil] [] = false.
+Proof. vm_compute. reflexivity. Qed.
+Example C09_1428_shape_rejected :
+  deadlock_ok [CCrit 1 true (CClose 2 (CRecv 3 CNil)) CNil; CCrit 1 true CNil (CRecv 2 (CClose 3 CNil))] (fun _ => 0) = false.
+Proof. vm_compute. reflexivity. Qed.
+(* ... and the semantics really deadlocks on it: Stop holds mu and waits for done; the
+   flush loop needs mu before it can close done *)
+Example C09_1428_deadlocks :
+  let s := run eqb2 [thread_of [(0, CCrit 1 true (CClose 2 (CRecv 3 CNil)) CNil)];
+                     thread_of [(0, CCrit 1 true CNil (CRecv 2 (CClose 3 CNil)))]] [0; 0; 1; 0; 1] in
+  can_step s 0 = false /\ can_step s 1 = false.
+Proof. vm_compute. auto. Qed.
